@@ -289,7 +289,22 @@ def r2_lexicographic(P, rep, ctx):
         raise AnalysisError(f"C16.R2: __hash__ has an unrecognised shape: {norm(hs.node)[:200]}")
     rep.check(sorted(hf) == sorted(ef), "C16.R2", hs.qual, "__hash__ hashes exactly the fields __eq__ compares", hs.loc(), construct=f"__hash__ fields {hf}",
               message=f"__hash__ uses fields {hf} but __eq__ compares {ef}: equal objects / hash consistency broken")
+    # the order is decided on the fields themselves: a comparison of *transformed* fields (string form, lower case, hash ..)
+    # is a different order (as strings "0.10.0" < "0.9.0")
+    other_p = ge.params[1]
+    transformed = []
+    for x in walk_local(ge.node):
+        if isinstance(x, ast.Compare) and len(x.ops) == 1 and isinstance(x.ops[0], (ast.GtE, ast.Gt, ast.LtE, ast.Lt)):
+            for side in (x.left, x.comparators[0]):
+                parts_ = side.elts if isinstance(side, ast.Tuple) else [side]
+                for p_ in parts_:
+                    if _field_of(p_, "self") is None and _field_of(p_, other_p) is None and any(_field_of(y, "self") or _field_of(y, other_p) for y in ast.walk(p_)):
+                        transformed.append(norm(x))
+    for t in sorted(set(transformed)):
+        rep.fail("C16.R2", ge.qual, f"order on a transformed field: {t[:80]}", f"PluginRef.__ge__ decides the order on a transformed value ({t[:100]}) instead of the field itself: e.g. versions compared as strings order 0.10.0 before 0.9.0, so the newest registered version is not last and resolve() misses it", ge.loc())
     gf, how = ge_lex_fields(ctx, ge)
+    if gf is None and transformed:
+        return
     if gf is None:
         raise AnalysisError(f"C16.R2: __ge__ has an unrecognised shape ({how})")
     rep.check(gf == FIELDS and how in ("chain", "tuple"), "C16.R2", ge.qual, "__ge__ is the lexicographic order over (group, name, version), True for equal references", ge.loc(),
